@@ -339,6 +339,15 @@ def isa_kids(formulas):
     return out
 
 
+def _display_type(x):
+    """the heap shape a tuple display with typed symbolic leaves is re-encoded under (None: not such a display)"""
+    from .values import VTuple
+
+    if isinstance(x, VTuple) and all(isinstance(i, SV) and i.ty is not None for i in x.items):
+        return TTuple(*[i.ty for i in x.items])
+    return None
+
+
 def run_and_check(E, con, fi, bound, model, heap0, want=None, relevant_kids=None):
     """concretise the model's inputs, run the real function, evaluate the contract's clauses on the real outcome.
     returns info dict with 'violated': list of violated clause labels (or ['raises'])"""
@@ -348,12 +357,17 @@ def run_and_check(E, con, fi, bound, model, heap0, want=None, relevant_kids=None
         sv = bound[con.new_object]
         conc.blank.add(z3.simplify(model.eval(Z.Val.id(sv.t), model_completion=True)).as_long())
     args = {}
+    types = {}
     for name, sv in bound.items():
         if isinstance(sv, SV):
             args[name] = conc.value(sv.t, sv.ty)
+            types[name] = sv.ty
+        elif _display_type(sv) is not None:
+            args[name] = conc.py_of(sv)          # a display of known size with symbolic leaves (e.g. *args of n pairs)
+            types[name] = _display_type(sv)
         else:
             raise NotConcretisable("parameter %s is an engine-level value %r" % (name, sv))
-    info = check_args(E, con, fi, args, {k: v.ty for k, v in bound.items()}, want=want)
+    info = check_args(E, con, fi, args, types, want=want)
     info["inexact_floats"] = conc.inexact
     return info
 
@@ -631,6 +645,8 @@ def run_real(E, con, fi, bound, model, heap0, ctx):
     for name, sv in bound.items():
         if isinstance(sv, SV):
             args[name] = conc.value(sv.t, sv.ty)
+        elif _display_type(sv) is not None:
+            args[name] = conc.py_of(sv)
         else:
             raise NotConcretisable("parameter %s is an engine-level value %r" % (name, sv))
     pre = snapshot_objects(conc)
